@@ -93,6 +93,15 @@ func FloatFromString(str string) (Object, error) {
 				}
 			}
 		}
+		// Python accepts a sign on nan, ParseFloat only on inf
+		if len(str) == 4 && strings.EqualFold(str[1:], "nan") {
+			switch str[0] {
+			case '+':
+				return Float(math.NaN()), nil
+			case '-':
+				return Float(math.Copysign(math.NaN(), -1)), nil
+			}
+		}
 		return nil, ExceptionNewf(ValueError, "invalid literal for float: '%s'", str)
 	}
 	return Float(f), nil
